@@ -1631,3 +1631,49 @@ mod test {
         })
     }
 }
+
+/// Verification hooks: public wrappers of private functions. Compiled only with `--cfg fclones_verif`.
+#[cfg(fclones_verif)]
+pub mod verif {
+    use super::*;
+
+    pub fn partition(
+        group: FileGroup<PathAndMetadata>,
+        config: &DedupeConfig,
+        log: &dyn Log,
+    ) -> Result<PartitionedFileGroup, Error> {
+        super::partition(group, config, log)
+    }
+
+    pub fn move_target(target_dir: &Arc<Path>, source_path: &Path) -> Path {
+        PartitionedFileGroup::move_target(target_dir, source_path)
+    }
+
+    pub fn was_modified(
+        files: &[PathAndMetadata],
+        after: DateTime<FixedOffset>,
+        log: &dyn Log,
+    ) -> bool {
+        super::was_modified(files, after, log)
+    }
+
+    pub fn should_keep(path: &Path, config: &DedupeConfig) -> bool {
+        super::should_keep(path, config)
+    }
+
+    pub fn may_drop(path: &Path, config: &DedupeConfig) -> bool {
+        super::may_drop(path, config)
+    }
+
+    pub fn fetch_files_metadata(
+        group: FileGroup<Path>,
+        log: &dyn Log,
+    ) -> Option<FileGroup<PathAndMetadata>> {
+        super::fetch_files_metadata(group, log)
+    }
+
+    /// Ok(true) if the lock was taken (and released again), Ok(false) if locking is off or unsupported
+    pub fn maybe_lock(path: &Path, lock: bool) -> io::Result<bool> {
+        FsCommand::maybe_lock(path, lock).map(|l| l.is_some())
+    }
+}
